@@ -1,6 +1,10 @@
 (* Model runner for C02 / C13.  usage: c02_model cases.txt impl.txt > model.txt
    cases.txt holds the recorded trace of every session, one event per line (see harness/cmd/c02):
-     B <label> | W <side> <hex> | S <side> <type> <seq> <unack> <window> <frag> <hex> | R <side> <k> | A <side> <hex> | F
+     B <label> | W <side> <hex> | S <side> <type> <seq> <unack> <window> <frag> <hex> | R <side> <k> | A <side> <hex> | F | X <side>
+   X marks the start of closing (an application called Close, or mieru closed the session itself): the lines of the
+   session before it are the acceptor trace (pre), the S lines after it (post) are folded with UdpProto.late_step,
+   which only demands that no sequence number is used for two contents (accept_closed; theorem
+   C13_trace_retx_same_across_close).
    The runner folds the extracted acceptor step (UdpProto.acc_step, whose soundness is proofs/UdpProtoProofs.v
    the accept_... lemmas) over the events of a session and prints "OK" for every accepted line; for the first rejected
    event of a session it prints the reason and the index of the event inside the session (later lines of that
@@ -24,9 +28,11 @@ let side s = (s = "1")
 let () =
   let cases = open_in Sys.argv.(1) in
   let st = ref a0 and dead = ref false and idx = ref 0 and label = ref "" in
+  let closing = ref false and late = ref l0 in
   iter_lines cases (fun line ->
     let ev = match split_ws line with
-      | "B" :: l -> st := a0; dead := false; idx := 0; label := String.concat " " l; None
+      | "B" :: l -> st := a0; dead := false; idx := 0; label := String.concat " " l; closing := false; late := l0; None
+      | ["X"; _] -> closing := true; None
       | ["W"; s; h] -> Some (EW (side s, bytes_of_hex h))
       | ["A"; s; h] -> Some (EA (side s, bytes_of_hex h))
       | ["R"; s; k] -> Some (ER (side s, n_of_dec k))
@@ -39,6 +45,12 @@ let () =
     | None -> print_endline "OK"
     | Some e ->
       if !dead then print_endline "OK"
+      else if !closing then begin
+        (match late_step !st !late e with
+         | Some l -> late := l; print_endline "OK"
+         | None -> dead := true; Printf.printf "REJECT after-close:one-sequence-number-two-contents-or-bad-type at-event %d of %s\n" !idx !label);
+        incr idx
+      end
       else begin
         (match acc_step !st e with
          | Acc a -> st := a; print_endline "OK"
